@@ -45,11 +45,14 @@ def v1_pieces(stream, P):
 
 
 def build(name, files, P, version, single=False, order=None, pads="none", trailing_pad=False,
-          extra_info=None, extra_top=None, block=BLOCK):
+          extra_info=None, extra_top=None, block=BLOCK, attrs=False):
     """files: list of (components, bytes).  version 1|2|3.
     order: permutation (list of indexes) for the v1 list of a v1 torrent (default: as given);
     pads: "none" | "bep47" (v1 with padding entries);  trailing_pad: pad after the last file.
-    v2 / hybrid use raw-byte sorted tree order, hybrids are always padded between files."""
+    v2 / hybrid use raw-byte sorted tree order, hybrids are always padded between files.
+    attrs: regular files carry BEP 47 attr strings other than "p" ("x" executable, "h" hidden), as
+    libtorrent-based tools write them - in the v1 list and in the file-tree leaves."""
+    ATTR = ("x", "h", "hx")
     info = {"name": name, "piece length": P}
     top = {}
     if version in (2, 3):
@@ -63,6 +66,8 @@ def build(name, files, P, version, single=False, order=None, pads="none", traili
             for c in parts[:-1]:
                 node = node.setdefault(c, {})
             leaf = {"length": len(data)}
+            if attrs:
+                leaf["attr"] = ATTR[len(data) % 3]
             if data:
                 root, layer = v2_file(data, P, block)
                 leaf["pieces root"] = root
@@ -76,12 +81,16 @@ def build(name, files, P, version, single=False, order=None, pads="none", traili
     if version in (1, 3):
         if single:
             info["length"] = len(files[0][1])
+            if attrs:
+                info["attr"] = "x"
             info["pieces"] = v1_pieces(files[0][1], P)
         else:
             flist, stream = [], bytearray()
             padded = version == 3 or pads == "bep47"
             for n, (comps, data) in enumerate(ordered):
                 flist.append({"length": len(data), "path": list(comps)})
+                if attrs:
+                    flist[-1]["attr"] = ATTR[len(data) % 3]
                 stream += data
                 gap = (-len(data)) % P
                 last = n == len(ordered) - 1
